@@ -108,10 +108,10 @@ func contID(v interface{}) (uintptr, bool) {
 }
 
 type location struct {
-	ok   bool
-	cont uintptr
-	key  string
-	idx  int
+	ok    bool
+	cont  uintptr
+	key   string
+	idx   int
 	isMap bool
 }
 
